@@ -9,6 +9,8 @@ import (
 	"io"
 	"net/http"
 	"net/http/httptest"
+	"net/textproto"
+	"net/url"
 	"reflect"
 	"runtime"
 	"sort"
@@ -141,8 +143,48 @@ func c19Middlewares(n int, seen *atomic.Int64, delays *bool) []middleware.Middle
 }
 
 type c19Call struct {
-	op string
-	in []reflect.Value // without ctx
+	op       string
+	in       []reflect.Value // without ctx
+	override bool            // call with the per-call server URL override
+}
+
+// c19PartHeader is shared by every multipart file of every call.
+var c19PartHeader = textproto.MIMEHeader{"Content-Type": {"application/x-verif"}, "X-Verif-Part": {"shared"}}
+
+// rewindReaders seeks every *bytes.Reader inside a value back to its start.
+func rewindReaders(v reflect.Value, depth int) {
+	if !v.IsValid() || depth > 8 {
+		return
+	}
+	switch v.Kind() {
+	case reflect.Interface, reflect.Pointer:
+		if v.IsNil() {
+			return
+		}
+		if s, ok := v.Interface().(io.Seeker); ok {
+			s.Seek(0, io.SeekStart)
+			return
+		}
+		rewindReaders(v.Elem(), depth+1)
+	case reflect.Struct:
+		for i := 0; i < v.NumField(); i++ {
+			if v.Type().Field(i).IsExported() {
+				rewindReaders(v.Field(i), depth+1)
+			}
+		}
+	case reflect.Slice, reflect.Array:
+		if v.Type().Elem().Kind() == reflect.Uint8 {
+			return
+		}
+		for i := 0; i < v.Len(); i++ {
+			rewindReaders(v.Index(i), depth+1)
+		}
+	case reflect.Map:
+		it := v.MapRange()
+		for it.Next() {
+			rewindReaders(it.Value(), depth+1)
+		}
+	}
 }
 
 type c19Outcome struct {
@@ -262,15 +304,11 @@ func c19Pkg(r *ev.Run, pc *C19Pkg) error {
 	for k := 0; len(calls) < pc.Calls && k < pc.Calls*4; k++ {
 		op := ops[k%len(ops)]
 		hm, _ := ht.MethodByName(op.Name)
-		b := &Builder{Pkg: pkg, Rng: rng, Hostile: k%3 == 2, MaxDepth: 3, UniqueID: fmt.Sprintf("c%d-", k)}
+		b := &Builder{Pkg: pkg, Rng: rng, Hostile: k%3 == 2, MaxDepth: 3, UniqueID: fmt.Sprintf("c%d-", k), PartHeader: c19PartHeader}
 		var in []reflect.Value
 		okb := true
 		for i := 1; i < hm.Type.NumIn(); i++ {
 			t := hm.Type.In(i)
-			if hasReader(t, 0) && k%2 == 0 {
-				okb = false // streams are consumed by a call; keep half of them out for re-use safety
-				break
-			}
 			var v reflect.Value
 			if k%5 == 4 {
 				v = b.Value(t, 0) // not filtered by Validate: exercises failing validation concurrently
@@ -285,14 +323,23 @@ func c19Pkg(r *ev.Run, pc *C19Pkg) error {
 			in = append(in, v)
 		}
 		if okb {
-			if hasAnyReader(in) {
-				continue // a stream can be sent once only; both phases need the same call
-			}
-			calls = append(calls, c19Call{op.Name, in})
+			// streams are *bytes.Reader values: rewound before every execution (a call is executed by one
+			// goroutine at a time), so multipart and octet-stream operations take part too
+			calls = append(calls, c19Call{op: op.Name, in: in})
 		}
 	}
 	if len(calls) == 0 {
 		return nil
+	}
+	// the override equals the client's own base URL plus a trailing slash, so outcomes do not depend on it
+	overrides := map[reflect.Value]*url.URL{}
+	for ci, base := range []string{"http://verif.local/", ts.URL + "/", "http://verif.local/"} {
+		if u, err := url.Parse(base); err == nil {
+			overrides[clients[ci]] = u
+		}
+	}
+	for i := range calls {
+		calls[i].override = i%3 == 1
 	}
 	do := func(cl reflect.Value, c c19Call) (o c19Outcome) {
 		defer func() {
@@ -301,7 +348,20 @@ func c19Pkg(r *ev.Run, pc *C19Pkg) error {
 			}
 		}()
 		m := cl.MethodByName(c.op)
-		out := m.Call(append([]reflect.Value{reflect.ValueOf(context.Background())}, c.in...))
+		for _, v := range c.in {
+			rewindReaders(v, 0)
+		}
+		ctx := context.Background()
+		args := append([]reflect.Value{}, c.in...)
+		if u := overrides[cl]; u != nil && pkg.WithServerURL != nil && c.override {
+			// per-call server URL override with ONE *url.URL shared by all calls of this client (read-only for ogen)
+			var opt any
+			ctx, opt = pkg.WithServerURL(ctx, u)
+			if opt != nil && m.Type().IsVariadic() {
+				args = append(args, reflect.ValueOf(opt))
+			}
+		}
+		out := m.Call(append([]reflect.Value{reflect.ValueOf(ctx)}, args...))
 		if e := out[len(out)-1].Interface(); e != nil {
 			o.err = errClass(e.(error))
 			return
